@@ -75,3 +75,17 @@ package tokenV2
 //@       && ret(call (jws.Message).Signatures #1)[k].ProtectedHeaders().JWKSetURL() == ""
 //@       && ret(call (jws.Message).Signatures #1)[k].ProtectedHeaders().X509CertChain() == nil
 //@       && ret(call (jws.Message).Signatures #1)[k].ProtectedHeaders().X509URL() == ""
+
+// ---- C04: an entry of authorized_keys verifies with ITS key only: each entry gets a key set of its own, freshly
+// made, holding the (two renderings of the) public key of that line and nothing else - so a token that verifies
+// against an entry was signed by the key registered to that entry's user name ----
+//@ func buildKeySet
+//@   prop C04
+//@   ensures [a-fresh-set-per-key] isNilIface(result.1) ==> did(call jwk.NewSet #1) && result.0 == ret(call jwk.NewSet #1)
+//@   call (jwk.Set).AddKey #1 requires [only-this-key] arg(0) == ret(call jwk.NewSet #1) && arg(1) == ret(call jwkFromSSHKey #1).0 && arg(call jwkFromSSHKey #1, 0) == key
+//@   call (jwk.Set).AddKey #2 requires [only-this-key] arg(0) == ret(call jwk.NewSet #1) && arg(1) == ret(call jwkFromSSHKey #2).0 && arg(call jwkFromSSHKey #2, 0) == key
+//@ func parseAuthorizedKeys
+//@   prop C04
+//@   call append #1 requires [each-entry-has-the-key-set-of-its-own-line] len(arg(1)) == 1 && arg(1)[0].jwkSet == ret(call buildKeySet #1).0 && isNilIface(ret(call buildKeySet #1).1)
+//@        && arg(call buildKeySet #1, 0) == publicKey && arg(1)[0].key == publicKey && arg(1)[0].comment == comment && comment != ""
+//@        && publicKey == ret(call ssh.ParseAuthorizedKey #1).0
